@@ -62,7 +62,7 @@ def r1(ctx):
                     nl = s.rv.ops[0].place.local
     if nl is None:
         raise AnchorError("Session::encrypt_message: the nonce argument is not a copy of a local buffer")
-    ws = writes_into(b, p, nl)
+    ws = writes_into(b, p, nl, follow_moves=True)
     lo = [(bi, src, write_range(b, p, t)) for bi, m, src, t in ws if m == "copy_from_slice"]
     cnt = [(bi, src) for bi, src, rg in lo if rg == (0, 4)]
     rnd = [(bi, src) for bi, src, rg in lo if rg == (4, None) or rg == (4, 12)]
